@@ -262,7 +262,7 @@ class Builder:
 
     def transfer(self, kind, path, payload_segs=(), chunks=(), cb=None, setup_code=None, cmd_code=150, done_code=226,
                  refuse_at=None, refuse_code=550, names=False, upverb="S", fail_at=None, end="E", data_tls_ok=True,
-                 completion="now", listen="open", abor=None, finish_first=False, data_fault=None):
+                 completion="now", listen="open", abor=None, finish_first=False, data_fault=None, pre_words=None, done_words=None):
         """kind: 'D' download, 'U' upload, 'F' listing.
         refuse_at: None | 'setup' | 'cmd'.  abor: None | dict(first=426|226|..., second=226) when the callback cancels."""
         verb = {"D": b"RETR", "F": (b"NLST" if names else b"LIST"),
@@ -303,8 +303,8 @@ class Builder:
                                          "Opening BINARY mode data connection (%d bytes)" % (total // 2),
                                          "Opening data connection (0 bytes)", "Opening (%d bytes)" % (total + 100),
                                          "about to open (bytes) (12 bytes)"]) if kind != "U" else "opening"
-                pre = self.m(cmd_code, words)
-                done = self.m(done_code, "complete")
+                pre = self.m(cmd_code, pre_words if pre_words is not None else words)
+                done = self.m(done_code, done_words if done_words is not None else "complete")
                 ddir = "recv" if kind == "U" else "send"
                 data = dict(dir=ddir, mode=("active" if self.mode == "A" else "passive"), tls=self.tls, tls_ok=data_tls_ok,
                             segs=list(payload_segs), end=end, reachable=True)
